@@ -469,12 +469,9 @@ func (svr *Service) handleConnection(ctx context.Context, conn net.Conn, interna
 				Error:     util.GenerateResponseErrorString("register visitor conn error", err, lo.FromPtr(svr.cfg.DetailedErrorsToClient)),
 			})
 			conn.Close()
-		} else {
-			_ = msg.WriteMsg(conn, &msg.NewVisitorConnResp{
-				ProxyName: m.ProxyName,
-				Error:     "",
-			})
 		}
+		// On success the response has been written by the visitor manager before it handed the
+		// connection to the proxy (writing it here could interleave with data the proxy already sends).
 	default:
 		log.Warnf("Error message type for the new connection [%s]", conn.RemoteAddr().String())
 		conn.Close()
